@@ -321,14 +321,24 @@ func (cd *ConfigManager) Commit(id conf.SessionID) error {
 
 	diff := FormatChanges(sess.changes)
 
+	// Persist before publishing: if the startup file cannot be written the commit
+	// has to fail as a whole, with running, startup and the session left untouched,
+	// the handlers rolled back and the routing daemon put back on the running config.
+	newStartup := cd.deepCopyConfig(sess.config)
+	if err := SaveYAML(cd.startupConfigPath, cd.scrubPersistedConfig(newStartup)); err != nil {
+		if frrReloadNeeded {
+			if rerr := cd.reloadFRR(cd.runningConfig); rerr != nil {
+				cd.logger.Error("Failed to restore FRR configuration after aborted commit", "error", rerr)
+			}
+		}
+		cd.rollbackChanges(appliedChanges)
+		return fmt.Errorf("failed to save startup config: %w", err)
+	}
+
 	cd.runningConfig = sess.config
 	cd.refreshMixedAccessSet()
 	cd.refreshSGSnapshot()
-
-	cd.startupConfig = cd.deepCopyConfig(cd.runningConfig)
-	if err := SaveYAML(cd.startupConfigPath, cd.scrubPersistedConfig(cd.startupConfig)); err != nil {
-		return fmt.Errorf("failed to save startup config: %w", err)
-	}
+	cd.startupConfig = newStartup
 
 	delete(cd.sessions, id)
 	if cd.lockOwner == id {
@@ -361,8 +371,10 @@ func (cd *ConfigManager) Commit(id conf.SessionID) error {
 	cd.versions = append(cd.versions, version)
 
 	if !cd.disableVersions {
+		// The commit has already taken effect; a missing history record must not
+		// be reported as a failed commit.
 		if err := cd.saveVersion(version); err != nil {
-			return fmt.Errorf("failed to save version: %w", err)
+			cd.logger.Error("Configuration committed but version record could not be saved", "version", version.Version, "error", err)
 		}
 	}
 
